@@ -99,17 +99,22 @@ def IV_BYTES_WITHOUT_METADATA : Bytes := "LDK Offer v2~~~~".toUTF8.toList
 def rangeRecs (lo hi : Nat) (rs : List Rec) : List Rec :=
   (rs.dropWhile (fun r => !(lo ≤ r.ty && r.ty < hi))).takeWhile (fun r => lo ≤ r.ty && r.ty < hi)
 
-/-- the records fed to the HMAC: the offer range without the metadata record itself and, when the
-    signing key is derived, without the issuer id; then the experimental offer range
-    -- mirrors the iterator built in offer.rs::OfferContents::verify -/
-def offerCovered (derivesKeys : Bool) (rs : List Rec) : List Rec :=
+/-- the records fed to the HMAC: the records of the offer range that pass the record filter of
+    OfferContents::verify, then the experimental offer range -- mirrors the iterator built in
+    offer.rs::OfferContents::verify.  The FILTER is `C18Meta.offerRecordCovered`, translated from the
+    `match record.r#type { .. }` arms of the Rust text on every run (tools/gen_c18_meta.py):
+    `recipientData` = the metadata is `Metadata::RecipientData(_)` (verify_using_recipient_data),
+    `derivesKeys` = `metadata.derives_recipient_keys()`. -/
+def offerCovered (recipientData derivesKeys : Bool) (rs : List Rec) : List Rec :=
   (rangeRecs OFFER_TYPES_LO OFFER_TYPES_HI rs).filter
-      (fun r => r.ty != OFFER_METADATA_TYPE && (r.ty != OFFER_ISSUER_ID_TYPE || !derivesKeys)) ++
+      (fun r => C18Meta.offerRecordCovered recipientData derivesKeys r.ty) ++
     rangeRecs EXPERIMENTAL_OFFER_TYPES_LO EXPERIMENTAL_OFFER_TYPES_HI rs
 
 /-- mirrors offer.rs::OfferContents::verify_using_metadata (`nonce = none`: the metadata is the
-    value of record 4) and verify_using_recipient_data (`nonce = some n`: `Metadata::RecipientData`,
-    the nonce came back through the blinded path context; record 4 is not read at all) -/
+    value of record 4, `Metadata::Bytes`) and verify_using_recipient_data (`nonce = some n`:
+    `Metadata::RecipientData`, the nonce came back through the blinded path context; the VALUE of
+    record 4 is not read, whether the record is part of the MAC input is decided by the translated
+    filter).  `derives_recipient_keys` is the translated `C18Meta.derivesRecipientKeys`. -/
 def offerVerify (pubOf : Bytes → Bytes) (key : Bytes) (nonce : Option Bytes) (rs : List Rec) : Verdict :=
   let metadata : Option Bytes :=
     match nonce with
@@ -118,13 +123,13 @@ def offerVerify (pubOf : Bytes → Bytes) (key : Bytes) (nonce : Option Bytes) (
   match metadata with
   | none => .err
   | some md =>
-    let derivesKeys := match nonce with | some _ => true | none => md.length == NONCE_LEN
+    let derivesKeys := C18Meta.derivesRecipientKeys nonce.isSome md.length
     match rs.find? (fun r => r.ty == OFFER_ISSUER_ID_TYPE) with
     | none => .err
     | some pkRec =>
       let iv := match nonce with | some _ => IV_BYTES_WITHOUT_METADATA | none => IV_BYTES_WITH_METADATA
       verifyRecipient mac pubOf key iv (recValue pkRec)
-        ((offerCovered derivesKeys rs).flatMap (fun r => r.recordBytes)) md
+        ((offerCovered nonce.isSome derivesKeys rs).flatMap (fun r => r.recordBytes)) md
 
 /-! ### which records of an invoice the payer's stateless check covers (offers/invoice.rs) -/
 
